@@ -40,7 +40,7 @@ WALK_RULE = ("positions visited by (a) exhaustive descents to a fixed depth from
              "promotions, double checks, locked positions), (a') two structured families in both colours: the castling set-up with one extra enemy piece of every kind on every free square "
              "(castling out of / through / into every kind of attack) and an en-passant capture on every file with one or two capturers, the king safe, on the capture rank facing a rook or queen, "
              "behind a bishop-pinned victim, or with the capturer pinned on its file, (b) random games with move-kind bias (castling / en passant / promotion / capture), nested take-backs, "
-             "deliberate shuffles that repeat positions, and continuation from a FEN reload, (c) the minimised corpus; one observation block per position "
+             "deliberate shuffles that repeat positions, and continuation from a FEN reload, one game of 4,300 reversible moves through distinct positions followed by an irreversible move and take-backs (light move lines, state dumps now and then), (c) the minimised corpus; one observation block per position "
              "(full state dump, pseudo-legal list in generation order, legal list, check flags, attacked-square sets, from-scratch / reload keys, evaluation and its mirror / "
              "swapped twins, periodic single-component perturbations). distinct_nontrivial = number of distinct positions by (placement, side, rights, ep file), counted by the driver")
 
@@ -48,8 +48,8 @@ PROPS["C05"] = {
     "module": "RCE.Props.C05",
     "theorems": ["RCE.Props.C05.scratchKey_is_keyOfParts", "RCE.Props.C05.single_square", "RCE.Props.C05.single_turn",
                  "RCE.Props.C05.single_ep", "RCE.Props.C05.single_right"],
-    "streams": {"quick": [dict(WALK_Q, args=WALK_Q["args"] + ["--perturb-every", 8])],
-                "thorough": [dict(WALK_T, args=WALK_T["args"] + ["--perturb-every", 97])]},
+    "streams": {"quick": [dict(WALK_Q, args=WALK_Q["args"] + ["--perturb-every", 8]), FEN_Q],
+                "thorough": [dict(WALK_T, args=WALK_T["args"] + ["--perturb-every", 97]), FEN_T]},
     "rule": WALK_RULE + "; for C05 every explored key is bucketed by position identity (no two identities may share a key) and every perturbed from-scratch key must differ",
     "assumptions": ["the full statement (all pairs of distinct positions) is false for any 64-bit key by counting and is not claimed; "
                     "proved: every single-component difference changes the key, over the regenerated table"],
@@ -93,7 +93,7 @@ SEARCH_RULE = ("search cases = (position with its game history: the 50 seed FENs
                "shuffling a piece out and back so that the ROOT repeats an earlier position, a third with half of such a shuffle — plus roots with a single legal move and roots without moves) x depth x "
                "(node budget | stop-at-poll k | none) x cache mode (fresh | kept from earlier searches | neutralised); each case runs the real Search::search "
                "in-process and is compared line by line with the executable Lean search model (info lines, bestmove, every cache insert with node counter / flag / ply, "
-               "node count, seldepth, poll count, cache size and checksum) and with the property's own oracle; distinct_nontrivial = distinct case descriptors, counted by the driver")
+               "node count, seldepth, poll count, cache size and checksum) and with the property's own oracle; further modes by property: one-sided and asymmetric game clocks on a virtual clock (C09/C13), the fifty-move horizon with castling / captures / promotions at hand and mate-rich mined positions with the cache neutralised (C11), mined mates in one / two / avoidable threats after earlier searches of the position and of its parent (C12), sparse level endgames to depth 8 with the property-level checks only (C14), chains of different searches on one thread and fresh searches before and after a 4.5-million-entry cache (C16); distinct_nontrivial = distinct case descriptors, counted by the driver")
 
 SP_Q = S("search-plain", "plain", 100, 3, extra=["--repeat", 2])
 SO_Q = dict(S("search-off", "off", 100, 3), driver="search:6")
@@ -114,8 +114,8 @@ SK_T = S("search-keep", "keep", 400, 4)
 PROPS["C14"] = {
     "module": "RCE.Props.C14chess",
     "theorems": ["RCE.Props.C14.info_depths", "RCE.Props.C14.depth_limit_complete", "RCE.Props.C14.pv_legal", "RCE.Props.C14.pv_nonempty", "RCE.Props.C14.info_score_present", "RCE.Props.C14.chess_pv_legal_by_the_rules", "RCE.Props.C14.chess_pv_nonempty"],
-    "streams": {"quick": [SP_Q, S("search-budget", "budget", 16, 2, extra=["--step", 7, "--maxcases", 40]), S("search-game", "game", 48, 4, extra=["--plies", 8]), SR_Q],
-                "thorough": [SP_T, S("search-budget", "budget", 64, 3, extra=["--step", 11, "--maxcases", 300]), SK_T, S("search-game", "game", 400, 5, extra=["--plies", 12]), SR_T,
+    "streams": {"quick": [SP_Q, S("search-budget", "budget", 16, 2, extra=["--step", 7, "--maxcases", 40]), S("search-game", "game", 48, 4, extra=["--plies", 8]), SR_Q, dict(S("search-deepend", "deepend", 320, 8), driver="search:0")],
+                "thorough": [SP_T, dict(S("search-deepend", "deepend", 3200, 8), driver="search:0"), S("search-budget", "budget", 64, 3, extra=["--step", 11, "--maxcases", 300]), SK_T, S("search-game", "game", 400, 5, extra=["--plies", 12]), SR_T,
                              {"name": "search-benchkeep", "stream": "search", "driver": "search:0", "args": ["--mode", "file", "--cases", "work/bench_keep_cases.txt"]}]},
     "eval_key": "cases", "distinct_key": "distinct_cases",
     "rule": SEARCH_RULE + "; for C14: every info line is checked against the UCI token grammar, depths must be 1,2,3,... in order, every PV is replayed move by move "
@@ -139,8 +139,8 @@ PROPS["C13"] = {
 PROPS["C11"] = {
     "module": "RCE.Props.C11",
     "theorems": ["RCE.Props.C11.ab_eq_negamax", "RCE.Props.C11.ref_root_value_eq", "RCE.Props.C11.ref_root_move_value_eq"],
-    "streams": {"quick": [SO_Q, dict(S("search-mateoff", "mateoff", 160, 4), driver="search:0"), dict(S("search-promo", "promo", 1000, 3), driver="search:0"), WALK_Q],
-                "thorough": [SO_T, dict(S("search-mateoff", "mateoff", 1600, 4), driver="search:0"), dict(S("search-promo", "promo", 6000, 3), driver="search:0"), WALK_T]},
+    "streams": {"quick": [SO_Q, dict(S("search-fifty", "fifty", 64, 3), driver="search:0"), dict(S("search-mateoff", "mateoff", 160, 4), driver="search:0"), dict(S("search-promo", "promo", 1000, 3), driver="search:0"), WALK_Q],
+                "thorough": [SO_T, dict(S("search-fifty", "fifty", 64, 4), driver="search:0"), dict(S("search-mateoff", "mateoff", 1600, 4), driver="search:0"), dict(S("search-promo", "promo", 6000, 3), driver="search:0"), WALK_T]},
     "eval_key": "cases", "distinct_key": "distinct_cases",
     "rule": SEARCH_RULE + "; for C11: cache neutralised by the hook, no limits; the root score read from info.best_score and the value of the chosen move are compared with a reference "
             "minimax (textbook fail-soft alpha-beta, no ordering heuristics beyond a static capture sort, no cache, no null windows) over the model's game, and for small depths with the "
@@ -155,13 +155,15 @@ PROPS["C16"] = {
     "theorems": ["RCE.Props.C16.search_clock_indep", "RCE.Props.C16.bench_total_clock_indep", "RCE.Props.C16.bench_result_clock_indep"],
     "streams": {"quick": [S("search-plain", "plain", 64, 3, extra=["--repeat", 3]), S("search-deep", "deep", 2, 7, shards=2),
                           dict(S("search-xcheck", "xcheck", 2400, 4, extra=["--repeat", 2]), driver="search:0"),
-                          dict(S("search-chain", "chain", 64, 3), driver="search:0")],
+                          dict(S("search-chain", "chain", 64, 3), driver="search:0"),
+                          {"name": "search-huge", "stream": "search", "driver": "search:0", "args": ["--mode", "huge"]}],
                 "thorough": [S("search-plain", "plain", 400, 4, extra=["--repeat", 3]), dict(S("search-chain", "chain", 800, 3), driver="search:0"), S("search-deep", "deep", 4, 7, shards=4, extra=["--repeat", 3]),
                              dict(S("search-xcheck", "xcheck", 40000, 5, extra=["--repeat", 2]), driver="search:0"),
                              {"name": "search-bench", "stream": "search", "driver": "search:0", "shards": 16, "args": ["--mode", "file", "--cases", "work/bench_cases.txt"]},
-                             {"name": "search-benchkeep", "stream": "search", "driver": "search:0", "args": ["--mode", "file", "--cases", "work/bench_keep_cases.txt"]}]},
+                             {"name": "search-benchkeep", "stream": "search", "driver": "search:0", "args": ["--mode", "file", "--cases", "work/bench_keep_cases.txt"]},
+                             {"name": "search-huge", "stream": "search", "driver": "search:0", "args": ["--mode", "huge"]}]},
     "eval_key": "cases", "distinct_key": "distinct_cases",
-    "rule": SEARCH_RULE + "; thorough: the 62 bench positions to bench::MAXDEPTH in-process, node counts and every cache write equal to the model's (the bench node total is their sum); for C16: every case is run three times in one process from a fresh cache and all outputs (info lines, bestmove, every cache insert, counters, cache checksum) "
+    "rule": SEARCH_RULE + "; the same small fresh searches before and after the cache has held 4.5 million entries (keys of positions from random games, inserted directly) and was cleared (search-huge); thorough: the 62 bench positions to bench::MAXDEPTH in-process, node counts and every cache write equal to the model's (the bench node total is their sum); for C16: every case is run three times in one process from a fresh cache and all outputs (info lines, bestmove, every cache insert, counters, cache checksum) "
             "must be identical to each other and to the model's single prediction; 2400 (thorough 40000) random open positions with several queens (checks answered by checks, extensions far beyond the nominal depth) are each searched twice in a row in one thread and compared with themselves; chains (stream_totals.chain_pairs): for a position A searched to depth d, every position B of A's tree at plies d-1 and d (all for d <= 2, a sample of 1200 for d = 3) is searched on the same thread right after A with the cache cleared in between, and must give the (best move, score, nodes) it gives when searched after itself; the process-level part runs the real binary in separate processes, under 16-way CPU load, and the bench subcommand twice",
     "assumptions": [],
 }
@@ -184,9 +186,10 @@ PROPS["C09"] = {
 }
 
 PROPS["C07"] = {
-    "module": "RCE.Props.C07legal",
+    "module": "RCE.Props.C07played",
     "theorems": ["RCE.Props.C07.fen_roundtrip", "RCE.Props.C07.fen_roundtrip4", "RCE.Props.C07.fromFen_wf", "RCE.Props.C07.start_fen",
-                 "RCE.Props.C07.fromFen_legal", "RCE.Props.C07.fromFen_legal_moves_exact"],
+                 "RCE.Props.C07.fromFen_legal", "RCE.Props.C07.fromFen_legal_moves_exact",
+                 "RCE.Props.C07.loaded_equals_played", "RCE.Props.C07.same_now_same_behaviour", "RCE.Props.C07.reload_after_game", "RCE.Props.C07.reload_then_play"],
     "streams": {"quick": [FEN_Q, WALK_Q], "thorough": [FEN_T, WALK_T]},
     "rule": "generated FEN family: positions met on random walks from 40 seeds rendered with every castling-letter order, half-move clocks 0..150, move numbers 1..6000, "
             "4-field and 6-field forms, extra blanks; each string is loaded by Board::from_fen and the full state (and the legal moves, keys, evaluation of the loaded position and of a few "
@@ -195,9 +198,10 @@ PROPS["C07"] = {
 }
 
 PROPS["C01"] = {
-    "module": "RCE.Props.C01",
+    "module": "RCE.Props.C01perft",
     "theorems": ["RCE.Props.C01.attacked_exact", "RCE.Props.C01.inCheck_exact", "RCE.Props.C01.pseudo_exact",
-                 "RCE.Props.C01.legal_exact", "RCE.Props.C01.mate_stalemate_exact", "RCE.Props.C01.make_keeps"],
+                 "RCE.Props.C01.legal_exact", "RCE.Props.C01.mate_stalemate_exact", "RCE.Props.C01.make_keeps",
+                 "RCE.Props.C01.perft_exact", "RCE.Props.C01.perft_start"],
     "streams": {"quick": [WALK_Q], "thorough": [WALK_T]},
     "tier_b_kinds": ["pseudo-legal-order", "legal-list"],
     "rule": WALK_RULE + "; for C01 the sorted legal-move set (from/to/promotion) and both in-check answers and both attacked-square sets of every explored position are compared with the rules spec "
@@ -206,9 +210,10 @@ PROPS["C01"] = {
 }
 
 PROPS["C03"] = {
-    "module": "RCE.Props.C03",
+    "module": "RCE.Props.C03hist",
     "theorems": ["RCE.Props.C03.make_refines", "RCE.Props.C03.make_legal", "RCE.Props.C03.game_refines",
-                 "RCE.Props.C03.repetition_record", "RCE.Props.C03.start_legal"],
+                 "RCE.Props.C03.repetition_record", "RCE.Props.C03.start_legal",
+                 "RCE.Props.C03.rights_never_regained", "RCE.Props.C03.ep_iff_double_push", "RCE.Props.C03.ep_only_after_double_push"],
     "streams": {"quick": [WALK_Q, FEN_Q], "thorough": [WALK_T, FEN_T]},
     "rule": WALK_RULE + "; plus the generated FEN family (half-move clocks up to 650, move numbers up to 6000) with a few moves played from every loaded position; for C03 after every move of every game the implementation's placement (x64), side to move, four rights, en-passant file, half-move clock, full-move number "
             "are compared with the rules state machine, its FEN with the spec's rendering, and its repetition record with the multiset of keys of the earlier positions on the path",
@@ -218,7 +223,7 @@ PROPS["C03"] = {
 UCI_Q = {"name": "uci", "stream": "uci", "driver": "uci", "shards": 16, "args": ["--sessions", 1600]}
 UCI_T = {"name": "uci", "stream": "uci", "driver": "uci", "shards": 16, "args": ["--sessions", 40000]}
 UCI_RULE = ("generated UCI sessions: position commands carrying legal games (random play from 40 seeds, biased to castling / en passant / promotion) and every kind of single-move corruption "
-            "(illegal move, wrong / missing / upper-case promotion suffix, castling written as king-takes-rook, truncated string, a move of the other side, 'moves' keyword forgotten), "
+            "(illegal move, wrong / missing / upper-case promotion suffix, the same move strings re-sent in another legal order, castling written as king-takes-rook, truncated string, a move of the other side, 'moves' keyword forgotten), "
             "ucinewgame / isready / setoption variants, junk lines built from the UCI vocabulary with arguments dropped, duplicated, reordered or replaced by junk numbers (negative, > u8, > u64, > u128, "
             "non-numeric, non-ASCII), tab-separated tokens, lines after quit; each line goes through the real parser (verdict compared with the model) and each session through the real uci_loop "
             "(session position after every executed command compared with the model and with the rules spec's reading of the position command); distinct_nontrivial = distinct input lines")
@@ -272,7 +277,7 @@ PROPS["C12"] = {
                  "RCE.Props.C12.mate_in_two_kept_partial", "RCE.Props.C12.mate_in_two_kept_four", "RCE.Props.C12.mate_in_two_statement_refuted",
                  "RCE.Props.C12.chess_mates_iff", "RCE.Props.C12.chess_mate_in_one_by_the_rules",
                  "RCE.Props.C12.chess_avoidable_mate_by_the_rules", "RCE.Props.C12.chess_mate_in_two_forced_by_the_rules", "RCE.Props.C12.chess_lost_iff"],
-    "streams": {"quick": [S("search-mate", "mate", 160, 4)], "thorough": [S("search-mate", "mate", 3200, 5), SK_T]},
+    "streams": {"quick": [S("search-mate", "mate", 160, 4), S("search-matechain", "matechain", 400, 4)], "thorough": [S("search-mate", "mate", 3200, 5), S("search-matechain", "matechain", 8000, 4), SK_T]},
     "eval_key": "cases", "distinct_key": "distinct_cases",
     "rule": SEARCH_RULE + "; for C12: positions WITHOUT history and with a small half-move clock are mined by brute force (sparse random positions and random play from the seeds) so that a third has a mate in one, "
             "a third a forced mate in two, a third an avoidable mate-in-one threat; each is searched to depth 3 and 4 from an empty cache and again after earlier completed searches of the same position at the other "
